@@ -71,6 +71,22 @@ def gen_pregrown_history(rng):
     return ops
 
 
+def gen_destroy_history(rng):
+    """a filled database is destroyed and a new one (new id) is created right away: its head block lands on the space the
+    destroyed one gave back, which holds the old head's links - and nothing is put into it before the kill / checkpoint /
+    close: what makes the new database empty after a recovery is only what _db_save LOGGED for it"""
+    ops = ["n1"]
+    for i in range(rng.range(6, 25)):
+        ops.append("p1:%s:%d:%d" % (W.khex(rng.choice(KEYS)), rng.choice([5, 20, 20, 100, 300]), rng.below(250)))
+        if rng.chance(1, 8):
+            ops.append("s")
+    if rng.chance(1, 2):        # (database 3 belongs to the second session of the continuation oracle)
+        ops += ["n4", "p4:%s:20:4" % W.khex("k05")]
+    ops += ["x1", "n2"]
+    ops += rng.choice([[], ["s"], ["c"], ["q"], ["p4:%s:5:9" % W.khex("k07"), "s"] if "n4" in ops else ["c"], ["s", "q"]])
+    return ops
+
+
 def gen_big_history(rng):
     """a store that outgrows 4 MiB (the allocator's bitmap is doubled and relocated), synced; the kill comes after the last
     sync and the recovered store is then WRITTEN to (second session): allocations after a recovery must not land on
@@ -192,7 +208,7 @@ def growth_class(ops, full, killat):
         a, b = o["fx0"], o["fx1"]
         ev = []
         wr = [j for j in range(a, b) if fx[j][1] == "W" and fx[j][0] == W_WRITE]
-        if ops[i][0] in "pdnqQ":    # q: iwkv_close trims the file (shrink) - also a checkpoint without savepoint
+        if ops[i][0] in "pdnxqQ":   # q: iwkv_close trims the file (shrink) - also a checkpoint without savepoint
             for j in range(a, b):
                 if fx[j][1] == "M" and fx[j][0] in (W_FTRUNCATE, W_FALLOCATE):
                     before = [w for w in wr if w < j]
@@ -640,6 +656,11 @@ def check(run):
             ops = gen_backup_history(run.rng)
             run.dist("history_inside_online_backup")
             do_history(run, impl, wd, "hb%d" % h, crc, ops, nfirst, nlater, 6, model=model, mode=mode, ncont=6, ncross=ncross // 2)
+        for h in range((5 if run.tier == "quick" else 60) * mult):
+            crc = run.rng.choice([0, 1, 2, 4, 6])
+            ops = gen_destroy_history(run.rng)
+            run.dist("history_db_destroyed_then_new_db_left_empty")
+            do_history(run, impl, wd, "hx%d" % h, crc, ops, nfirst, nlater, 4, model=model, mode=mode, ncont=4, ncross=ncross // 2)
         for h in range((2 if run.tier == "quick" else 20) * mult):
             crc = run.rng.choice([0, 1])
             ops = gen_big_history(run.rng)
